@@ -3733,6 +3733,13 @@ val box_empty0 : state -> bool
 
 val quiescent0 : policy -> state -> bool
 
+type gate =
+| GateNone
+| GateGe
+| GateGt
+
+val gate_open : gate -> z -> z -> bool
+
 type sstate2 = { k_n : z; k_spin : nat option; k_off : z option;
                  k_box : (z * z option) option; k_wn : z; k_woff : z;
                  k_eof : bool; k_lost : bool; k_edge : bool }
@@ -3747,9 +3754,9 @@ val sinit0 : z -> z -> sstate2
 
 val carries_offset : (z * z option) option -> bool
 
-val sstep1 : bool -> z -> z -> slabel -> sstate2 -> sstate2 option
+val sstep1 : gate -> z -> z -> slabel -> sstate2 -> sstate2 option
 
-val srun1 : bool -> z -> z -> slabel list -> sstate2 -> sstate2
+val srun1 : gate -> z -> z -> slabel list -> sstate2 -> sstate2
 
 val sdone : sstate2 -> bool
 
@@ -3795,7 +3802,9 @@ val repl : nat -> 'a1 -> 'a1 list
 
 val as_sched : val0 -> slabel list
 
-val d_scroll_run : z -> z -> z -> slabel list -> val0
+val as_gate : val0 -> gate
+
+val d_scroll_run : gate -> z -> z -> z -> slabel list -> val0
 
 val dispatch_preview : z -> val0 -> val0 option
 
